@@ -4,8 +4,10 @@
    state prints a shortest path and the expected result of every operation for the replay. *)
 EXTENDS Handles, Json
 CONSTANTS MaxSize
-Vals == {"u", "v", ""}
-Keys == {"u", "k"}
+\* "@h1" = the handle text of h1 used as an ordinary value / key: collections hold strings, so storing a handle in
+\* another collection links nothing - no operation on the holder may touch h1 (and vice versa)
+Vals == {"u", "@h1", ""}
+Keys == {"u", "@h1"}
 Refs == {"h1", "h2", "bogus"} \cup (IF MaxH > 2 THEN {"h3"} ELSE {})
 VARIABLES st, path
 Op(c, h, a) == [cmd |-> c, h |-> h, args |-> a]
@@ -23,13 +25,14 @@ Ops == { Op("array", "", a) : a \in {<<>>, <<"u">>, <<"v", "">>} } \cup { Op("ma
 Init == st = [hs |-> <<>>, next |-> 0] /\ path = <<>>
 SizeOK(s) == \A i \in DOMAIN s.hs : LET x == s.hs[i] IN
                 IF x.k = "list" THEN Len(x.v) <= MaxSize ELSE IF x.k = "map" THEN Cardinality(DOMAIN x.v) <= MaxSize ELSE Cardinality(x.v) <= MaxSize
-Do(op) == LET e == Eff(op, st) IN e.st.next <= MaxH /\ SizeOK(e.st) /\ st' = e.st /\ path' = Append(path, op)
+Issued(op) == \A i \in 1..Len(op.args) : op.args[i] = "@h1" => st.next >= 1        \* a handle text exists once the handle was issued
+Do(op) == LET e == Eff(op, st) IN Issued(op) /\ e.st.next <= MaxH /\ SizeOK(e.st) /\ st' = e.st /\ path' = Append(path, op)
 Next == \E op \in Ops : Do(op)
 Spec == Init /\ [][Next]_<<st, path>>
 View == st
 FailedOpChangesNothing == \A op \in Ops : Eff(op, st).out = False => Eff(op, st).st = st
 IdsNeverReused == \A i \in DOMAIN st.hs : i <= st.next
-Exp(op) == LET e == Eff(op, st) IN [op |-> op, out |-> e.out, st |-> e.st, feasible |-> (e.st.next <= MaxH /\ SizeOK(e.st))]
+Exp(op) == LET e == Eff(op, st) IN [op |-> op, out |-> e.out, st |-> e.st, feasible |-> (e.st.next <= MaxH /\ SizeOK(e.st)), issued |-> Issued(op)]
 OpsSeq == SetToSeq(Ops)
 Emit == PrintT(<<"REPLAY", ToJson([path |-> path, st |-> st, next |-> [i \in 1..Len(OpsSeq) |-> Exp(OpsSeq[i])]])>>)
 =============================================================================
